@@ -39,8 +39,8 @@ class C18 : public Check
 public:
     const char *id() { return "C18"; }
     const char *opName(int k) { return gName(k); }
-    int quickRuns() { return 1600; }
-    int quickSeconds() { return 70; }
+    int quickRuns() { return 1800; }
+    int quickSeconds() { return 90; }
     int thoroughSeconds() { return 900; }
     int cpuBudgetSec() { return 30; }
     const char *rule()
